@@ -34,6 +34,9 @@ ovars == << ocfg, phase, plan, nxt, ran, pending, tree, user, error >>
 NP == Len(ocfg.params)
 Enabled == { j \in 1 .. NP : ocfg.params[j].enabled }
 User0 == [mem |-> 5]
+\* the value parameter j is configured with on the caller's objects, as a token (0 = the original
+\* configuration; the caller may edit it between two runs, see Reconfigure)
+Conf(j) == IF "defaults" \in DOMAIN ocfg THEN ocfg.defaults[j] ELSE 0
 
 ---------------------------------------------------------------------------
 \* The requested parameter space, written from the statement of C05.
@@ -46,20 +49,20 @@ ProductSet ==
   { e \in [1 .. NP -> 0 .. 7] :
       \A j \in 1 .. NP :
         IF j \in Enabled THEN \E k \in 1 .. Len(ocfg.params[j].vals) : e[j] = ocfg.params[j].vals[k]
-        ELSE e[j] = 0 }
+        ELSE e[j] = Conf(j) }
 
 \* implementation-shaped: the SEQUENCE in run-index order (first parameter slowest)
 RECURSIVE ProductFrom(_, _)
 ProductFrom(j, prefix) ==
   IF j > NP THEN << prefix >>
-  ELSE IF j \notin Enabled THEN ProductFrom(j + 1, Append(prefix, 0))
+  ELSE IF j \notin Enabled THEN ProductFrom(j + 1, Append(prefix, Conf(j)))
   ELSE LET vs == ocfg.params[j].vals IN
        LET RECURSIVE Cat(_)
            Cat(k) == IF k > Len(vs) THEN << >>
                      ELSE ProductFrom(j + 1, Append(prefix, vs[k])) \o Cat(k + 1)
        IN Cat(1)
 
-Default == [j \in 1 .. NP |-> 0]
+Default == [j \in 1 .. NP |-> Conf(j)]
 
 RECURSIVE SequentialFrom(_)
 SequentialFrom(j) ==
@@ -79,7 +82,7 @@ RowEff(row) ==
   [j \in 1 .. NP |->
      IF j \in Enabled
        THEN row[CHOOSE k \in 1 .. Len(EnabledSeq) : EnabledSeq[k] = j]
-       ELSE 0]
+       ELSE Conf(j)]
 CustomSeq == [r \in 1 .. Len(ocfg.table) |-> RowEff(ocfg.table[r])]
 
 Space ==
@@ -162,6 +165,16 @@ Rerun ==
   /\ error' = [idx |-> 0, eff |-> << >>]
   /\ UNCHANGED << ocfg, user >>
 
+\* Between two runs the caller edits, on his own objects, the value parameter j is configured with.
+\* The next run must see it wherever the parameter is not stepped (sequential mode, disabled
+\* parameters) - nothing computed for an earlier run may be re-used.
+Reconfigure(j, tok) ==
+  /\ phase = "new"
+  /\ j \in 1 .. NP
+  /\ ocfg' = [x \in DOMAIN ocfg \cup {"defaults"} |->
+               IF x = "defaults" THEN [Default EXCEPT ![j] = tok] ELSE ocfg[x]]
+  /\ UNCHANGED << phase, plan, nxt, ran, pending, tree, user, error >>
+
 ONext == Plan \/ (\E r \in 1 .. Len(plan) : MetaRun(r)) \/ (\E r \in pending : Exec(r)) \/ Merge
 
 OInitWith(c) ==
@@ -188,7 +201,7 @@ C05_ProductIsTheCartesianProduct ==
 C05_SequentialOneAtATime ==
   (phase # "new" /\ ocfg.mode = "sequential") =>
      \A r \in 1 .. Len(plan) :
-        Cardinality({ j \in 1 .. NP : plan[r][j] # 0 }) <= 1
+        Cardinality({ j \in 1 .. NP : plan[r][j] # Conf(j) }) <= 1      \* all others keep their configured values
 
 C05_SequentialCount ==
   (phase # "new" /\ ocfg.mode = "sequential") =>
@@ -198,7 +211,7 @@ C05_SequentialCount ==
                  IN Sm(1)
 
 C05_DisabledIgnored ==
-  \A r \in 1 .. Len(plan) : \A j \in 1 .. NP : j \notin Enabled => plan[r][j] = 0
+  \A r \in 1 .. Len(plan) : \A j \in 1 .. NP : j \notin Enabled => plan[r][j] = Conf(j)
 
 RealRuns == { x \in ran : x.idx # 0 }
 
